@@ -113,6 +113,44 @@ def specLookup (t : List Leaf) (q : Query) (vars : List (Str × Str)) (impl : SE
         | _ => false
       if lookupOkButSubstitution t q vars o && esc then (false, "autoescape_html") else (false, "-")
 
+/-! ## histories (seq cases) -/
+
+def op? : SExp → Option Op
+  | .list [.atom "proc", qx, vx] => do pure (.proc (← query? qx) (← kvs? vx))
+  | .list [.atom "rproc", qx, vx] => do pure (.rproc (← query? qx) (← kvs? vx))
+  | .list [.atom "get", qx] => do pure (.get (← query? qx))
+  | .list [.atom "inval"] => some .inval
+  | .list [.atom "put", .atom k, .atom c] => some (.put k.toList c.toList)
+  | .list [.atom "del", .atom k] => some (.del k.toList)
+  | _ => none
+
+/-- every state of the backend along the history is a tree (no value below or above another entry) -/
+def treesOk : List Leaf → List Op → Bool
+  | t, [] => prefixFree t
+  | t, .put k c :: r => prefixFree t && treesOk (putLeaf t k c) r
+  | t, .del k :: r => prefixFree t && treesOk (delLeaf t k) r
+  | t, _ :: r => treesOk t r
+
+def obsItemSx : ObsItem → SExp
+  | .pay p => payloadSx p
+  | .res r p => .list [.atom "r", resolvedSx r, payloadSx p]
+  | .dash => .atom "-"
+
+def obsItem? : SExp → Option ObsItem
+  | .atom "-" => some .dash
+  | .list [.atom "r", r, p] => do pure (.res (← resolved? r) (← payload? p))
+  | x => (payload? x).map .pay
+
+/-- (spec, hyp) for a history: the hypotheses of `C20_seq_model_meets_spec_partial` the input violates -/
+def specSeq (t : List Leaf) (ops : List Op) (impl : SExp) : Bool × String :=
+  match impl.list? >>= fun l => l.mapM? obsItem? with
+  | none => (false, "-")
+  | some obs =>
+    if seqOk t ops obs then (true, "-")
+    else if !noStale ops then (false, "stale_template_cache")
+    else if !seqEscapeFree t ops then (false, "autoescape_html")
+    else (false, "-")
+
 def processLine (line : String) : String :=
   match SExp.fields line with
   | [inp, impl] =>
@@ -130,6 +168,15 @@ def processLine (line : String) : String :=
           let (spec, hyp) := specLookup t q vars implSx
           s!"{model}\t{if spec then 1 else 0}\t{hyp}"
       | _, _, _ => "BADINPUT\t0\t-"
+    | some (.list [.atom "seq", tx, ox]), some implSx =>
+      match leaves? tx, ox.list? >>= fun l => l.mapM? op? with
+      | some t, some ops =>
+        if !treesOk t ops then "BADINPUT-tree\t0\t-"
+        else
+          let model := SExp.list ((modelSeqObs t ops).map obsItemSx)
+          let (spec, hyp) := specSeq t ops implSx
+          s!"{model}\t{if spec then 1 else 0}\t{hyp}"
+      | _, _ => "BADINPUT\t0\t-"
     | _, _ => "BADINPUT\t0\t-"
   | _ => "BADLINE\t0\t-"
 
